@@ -199,8 +199,19 @@ def sensitivity(args):
         for p, text in saved_evidence.items():
             open(os.path.join(vcheck.EVIDENCE, p + ".json"), "w").write(text)
     os.makedirs(os.path.join(VERIF, "selftest"), exist_ok=True)
-    if not only:
-        json.dump(rows, open(os.path.join(VERIF, "selftest", "sensitivity.json"), "w"), indent=1)
+    path = os.path.join(VERIF, "selftest", "sensitivity.json")
+    if only and os.path.exists(path):
+        # a filtered run updates / adds its rows in the stored table (order of the full list kept)
+        old = json.load(open(path))
+        fresh = {(r["mutant"], r["check"]): r for r in rows}
+        merged = [fresh.pop((r["mutant"], r["check"]), r) for r in old]
+        order = [(n, p) for (n, p, _, _, _) in items]
+        merged += [r for k, r in fresh.items()]
+        merged.sort(key=lambda r: order.index((r["mutant"], r["check"])) if (r["mutant"], r["check"]) in order else len(order))
+        rows_out = merged
+    else:
+        rows_out = rows
+    json.dump(rows_out, open(path, "w"), indent=1)
     log("sensitivity: %d mutants, %d wrong" % (len(rows), bad))
     return 0 if bad == 0 else 1
 
